@@ -45,7 +45,7 @@ prop('C03', ['K1', 'K3', 'K4', 'K5', 'K7', 'K8', 'M7', 'F1', 'F14', 'F7', 'F10',
      'The paths / accessors handed out by the flatten variants and those recomputed from the treespec come from producers that use the same entry per kind (N1, N2); every producer of nodes stores the same metadata shape (M1); the NoneIsLeaf / sort-mode variant taken equals the flag (K2).',
      ['equality of the produced lists for every input'])
 
-prop('C04', ['T5', 'N1', 'N2', 'N3', 'N4', 'N5', 'F8', 'M4', 'K4'],
+prop('C04', ['T5', 'N1', 'N2', 'N3', 'N4', 'N5', 'N6', 'F8', 'M4', 'K4'],
      'Paths and accessors, structural part: the path entry class per kind agrees between the '
      'engine, the Python registry literal and accessor.py (T5); flatten-with-path, PathsImpl, '
      'AccessorsImpl, Entries and Entry use the same entry per kind (index / key from the list that '
@@ -53,7 +53,7 @@ prop('C04', ['T5', 'N1', 'N2', 'N3', 'N4', 'N5', 'F8', 'M4', 'K4'],
      'type and kind (N1); the backwards walkers advance by the node count the recursive call '
      'returned (N2); the typed entry classes resolve a positional entry in the name list the '
      'children follow (N3); codify() of every entry class is the source text of what __call__ '
-     'does and the accessor folds both forwards (N4); AutoEntry picks, per family of node type, the entry class whose access method suits it, specific families first (N5); entry classes hash a subset of what they compare (F8); node copies keep '
+     'does and the accessor folds both forwards (N4); AutoEntry picks, per family of node type, the entry class whose access method suits it, specific families first (N5); joining accessors puts the own entries first and slicing keeps the class (N6); entry classes hash a subset of what they compare (F8); node copies keep '
      'node_entries (M4); the backwards walkers reverse their result (K4).',
      ['accessor(tree) is the leaf', 'prefix-freeness of paths', 'codify/eval agreement'])
 
